@@ -12,7 +12,7 @@ META = {
              "(ncon unchanged, parena rolled back to the end of the contact array / to its value at entry, every efc/island pointer NULL, nefc = nisland = 0, the right mjWARN_* raised, stack and memory untouched) and on success the arrays are non-NULL, consecutive, inside the arena and below the stack. "
              "pushPairArena is modelled in two variants: the code as it is now (NULL test on the result -> mju_error; C20_push_pair) and the code before /repo's repair f316da95f (test on the argument; C20_unfixed_push_pair_refuted: writes through NULL); arenaAllocIsland likewise (failure branch mj_clearEfc + rollback as it is now / clearIsland before repair 62d89235a, which left contact efc_address stale with nefc = 0); the check decides by replay which variants the working tree implements, reports an impl_violation for the old ones (corpus: site calls with too few free bytes, 80-body scene at memory 50000, 12-body cluster scene at memory 251616) and ties the variant found. "
              "Tie: each of the four site functions of the working tree is called on a real mjData (scene built with the mjSpec API, after mj_forward) with a swept number of free arena bytes, and return value, parena, pstack, maxuse_arena, ncon, nefc, nisland, every efc/island pointer and the warning raised are compared exactly with the model (request lists taken from the X-macros of the tree). "
-             "NOT proved, only observed on the inputs of the run: the behaviour of whole mj_step under small memory (other mj_arenaAllocByte call sites: narrowphase contact batches, flex, SDF, dual/efm arrays, derivative cache; and stack overflow exits): the same scenes are simulated with spec->memory swept from 0 to the needed size with guard zones around the arena, crash detection, and checks that every failed arena allocation is followed by a warning or a catchable mju_error and that ncon/nefc/efc pointers/parena/pstack are consistent after every completed step. "
+             "NOT proved, only observed on the inputs of the run: the behaviour of whole mj_step under small memory (other mj_arenaAllocByte call sites: narrowphase contact batches, flex, SDF, dual/efm arrays, derivative cache; and stack overflow exits): the same scenes are simulated with spec->memory (or m->narena after compilation, which reaches arenas of a few hundred bytes) swept from 0 to the needed size, refined adaptively down to single bytes wherever the outcome changes (sizes that are not multiples of 8 included; one scene has parena = 4 mod 8 before its first mjtNum array), with guard zones around the arena, crash detection, a per-allocation oracle evaluated by link-time wrappers after EVERY mj_arenaAllocByte / mj_stackAlloc* call of the engine (block inside [arena+parena, arena+narena-pstack), aligned, 0 <= parena <= narena-pstack; for bump allocators this implies pairwise disjointness and disjointness from the stack region), and checks that every failed arena allocation is followed by a warning or a catchable mju_error, that maxuse_arena <= narena and that ncon/nefc/efc pointers/efc_address/parena/pstack are consistent after every completed step. The same per-allocation oracle runs inside the site-level calls, whose free-byte counts cover every exact-fit size (with and without alignment padding) of every prefix of the request lists. "
              "C20_monotone of the design (retained contacts form a prefix) is not claimed: narrowphase allocates contacts per batch, all or nothing. Call sites not modelled are listed in the evidence."),
     "note": "Trusted: Coq kernel; hand-written models Model/Memory.v and Model/ArenaClients.v; correspondence harness (gcc, drivers c20_sites.c which includes three engine .c files textually, c20_sweep.c with --wrap=mj_arenaAllocByte); ASan not used (guard zones of 256 bytes instead).",
     "assumptions": ["request sizes of the X-macros do not overflow size_t", "mju_error does not return", "whole-step behaviour under small memory is observed, not proved",
@@ -21,7 +21,11 @@ META = {
 
 COQ_IMPORTS = "From Coq Require Import ZArith Bool.\nFrom MJV Require Import Lib.Eqb Model.Memory Model.ArenaClients.\nOpen Scope Z_scope."
 SITE_NAME = {"P": "pushPairArena", "C": "mj_addContact", "E": "arenaAllocEfc", "I": "arenaAllocIsland"}
-SCENES = [("6", "2", "0", "1", "0"), ("9", "0", "1", "1", "1"), ("4", "3", "0", "0", "0")]
+# (nbody, nlink, cone, islands, cluster + 10 * unlimited hinges).  The second scene has nefc = 3 rows and nv = 4 with a
+# dense Jacobian: an odd number of ints precedes the first mjtNum array, so parena is 4 mod 8 there (padding matters)
+SCENES = [("6", "2", "0", "1", "0"), ("0", "3", "0", "0", "10"), ("9", "0", "1", "1", "1"), ("4", "3", "0", "0", "0")]
+WRAP = ["-Wl,--wrap=mj_arenaAllocByte", "-Wl,--wrap=mj_stackAllocByte", "-Wl,--wrap=mj_stackAllocInfo",
+        "-Wl,--wrap=mj_stackAllocNum", "-Wl,--wrap=mj_stackAllocInt"]
 # whole-step sweep: the second scene (12 interpenetrating bodies) has a memory range in which the contact batch
 # allocation of narrowphase fails while the step completes
 SWEEP_SCENES = [("6", "2", "0", "1", "0"), ("12", "2", "0", "1", "1"), ("9", "0", "1", "1", "1"), ("4", "3", "0", "0", "0")]
@@ -56,6 +60,8 @@ def parse_sites(out, tests):
             i += 3
             if i < len(lines) and lines[i].startswith("O "):
                 r["post"] = list(map(int, lines[i].split()[1:]))
+                r["wviol"] = r["post"][-7:]     # per-allocation oracle of c20_wrap.h: count, first violation
+                del r["post"][-7:]
                 r["nstale"] = r["post"].pop()
                 i += 1
             elif i < len(lines) and lines[i].startswith("X "):
@@ -89,6 +95,13 @@ def site_oracle(r):
         return bad
     if pstack != ps0 or parena + pstack > narena:
         bad.append(("state", "pstack unchanged and parena + pstack <= narena", r["post"]))
+    if r["wviol"][0]:
+        k, b, a, off, pa0, ps0 = r["wviol"][1:]
+        bad.append(("block_outside_free_region", "every block handed out lies inside [arena+parena, arena+narena-pstack) and is aligned; 0 <= parena <= narena-pstack",
+                    "%d allocation(s) violate this; first: %s allocation of %d bytes (align %d) placed at offset %d with parena=%d pstack=%d narena=%d (free region ends at offset %d)" %
+                    (r["wviol"][0], "arena" if k == 1 else "stack", b, a, off, pa0, ps0, narena, narena - ps0)))
+    if maxa > narena:
+        bad.append(("arena_overrun", "maxuse_arena <= narena", "maxuse_arena=%d narena=%d" % (maxa, narena)))
     if r["nstale"]:
         bad.append(("stale_efc_address", "every contact has efc_address < nefc (-1 when its rows were dropped)",
                     "nefc=%d but %d of %d contacts keep efc_address >= nefc" % (nefc, r["nstale"], ncon)))
@@ -147,8 +160,8 @@ def run(ctx):
     ctx.coq_props(allowed_axioms=(), extra_targets=["Lib/Eqb.vo", "Model/Memory.vo", "Model/ArenaClients.vo",
                                                     "Proof/MemoryProof.vo", "Proof/ArenaClientsProof.vo"])
     lap("coq_props")
-    exe = driver_retry(ctx, "c20_sites", ["c20_sites.c"])
-    swp = driver_retry(ctx, "c20_sweep", ["c20_sweep.c"], link_extra=["-Wl,--wrap=mj_arenaAllocByte"])
+    exe = driver_retry(ctx, "c20_sites", ["c20_sites.c"], link_extra=WRAP)
+    swp = driver_retry(ctx, "c20_sweep", ["c20_sweep.c"], link_extra=WRAP)
     if exe is None or swp is None:
         return
     lap("driver_build")
@@ -158,7 +171,7 @@ def run(ctx):
     # ---------------------------------------------------------------- 1. site-level tie
     allres = []
     fixed = True
-    for sc in (SCENES[:2] if quick else SCENES):
+    for sc in (SCENES[:3] if quick else SCENES):
         # request lists first (ample space), then free-byte counts around every prefix boundary
         rc, out, err = ctx.run(exe, "E 1000000\nI 1000000\n", args=list(sc))
         first = parse_sites(out, [("E", 1000000), ("I", 1000000)]) if rc == 0 else None
@@ -168,15 +181,27 @@ def run(ctx):
         tests = [("P", a) for a in (0, 1, 5, 23, 24, 25, 27, 28, 31, 100)]
         tests += [("C", a) for a in (0, 7, first[0]["csz"] - 1, first[0]["csz"], first[0]["csz"] + 7, first[0]["csz"] + 8, 5000)]
         for site, fr in (("E", first[0]), ("I", first[1])):
+            # exact-fit sizes: for every prefix of the request list, every free-byte count from "fits without the
+            # alignment padding" - 1 to "fits with the padding" + 1 (offsets relative to d->arena decide the padding)
+            start = fr["pre"][3] * fr["csz"] if site == "E" else fr["pre"][0]
+            off = start
             cum = 0
             marks = {0, 1}
+            exact = set()
             for k in range(0, len(fr["reqs"]), 2):
-                cum += fr["reqs"][k]
-                marks |= {cum - 1, cum, cum + 1, cum + 4, cum + 8}
-            marks |= {cum + 16, cum + 64, cum + 1000}
+                b, al = fr["reqs"][k], fr["reqs"][k + 1]
+                pad = (-off) % al
+                cum += b
+                exact |= set(range(cum - 1, (off + pad + b - start) + 2))
+                if pad:
+                    exact |= set(range(off + b - start - 1, off + pad + b - start + 2))
+                off += pad + b
+            padded = off - start
+            marks |= exact | {padded + 16, padded + 64, padded + 1000}
+            cum = padded
             marks = sorted(m for m in marks if m >= 0)
-            if quick and len(marks) > 30:
-                marks = sorted(set(rng.sample(marks, 24)) | {0, cum - 1, cum + 64, cum + 1000})
+            if quick and len(marks) > 60:
+                marks = sorted(set(rng.sample(marks, 50)) | {0, cum - 1, cum, cum + 64, cum + 1000})
             tests += [(site, a) for a in marks]
             tests += [(site, rng.randrange(0, cum + 100)) for _ in range(4 if quick else 40)]
         rc, out, err = ctx.run(exe, "".join("%s %d\n" % t for t in tests), args=list(sc))
@@ -278,12 +303,13 @@ def parse_sweep(out):
         elif t[2] == "D":
             runs.append({"mem": mem, "cls": "makedata_error", "msg": " ".join(t[3:])[:120]})
         elif t[2] == "X":
-            v = list(map(int, t[3:9]))
-            runs.append({"mem": mem, "cls": "crash", "sig": v[0], "addr": v[1], "nfailed": v[2], "last": (v[3], v[4])})
+            v = list(map(int, t[3:]))
+            runs.append({"mem": mem, "cls": "crash", "sig": v[0], "addr": v[1], "nfailed": v[2], "last": (v[3], v[4]), "nviol": v[5], "first": v[6:12]})
         elif t[2] == "R":
             v = list(map(int, t[3:]))
             keys = ["done", "err", "ncon", "nefc", "nisland", "parena", "pstack", "pbase", "wcon", "wcnstr", "bad", "guard", "nalloc", "nfailed", "lastb", "lasta", "narena"]
             d = dict(zip(keys, v))
+            d["nviol"], d["first"] = v[17], v[18:24]
             d["mem"] = mem
             d["cls"] = "step_error" if d["err"] else ("warned" if d["wcon"] + d["wcnstr"] else "ok")
             runs.append(d)
@@ -307,7 +333,14 @@ def sweep_oracle(ctx, args, runs, ref, reported):
     for r in runs:
         case = {"scene(nbody,nlink,cone,islands,cluster,nsteps)": list(args), "spec_memory": r["mem"], "built_with": "mjSpec C API, see harness/drivers/c19_scene.h"}
         v = None
-        if r["cls"] == "crash":
+        if r.get("nviol"):
+            k, b, a, off, pa0, ps0 = r["first"]
+            v = ("mj_arenaAllocByte" if k == 1 else "mj_stackAlloc", "block_outside_free_region",
+                 "every block handed out lies inside [arena+parena, arena+narena-pstack) and is aligned; 0 <= parena <= narena-pstack",
+                 "%d allocation(s) violate this%s; first: %s allocation of %d bytes (align %d) placed at offset %d with parena=%d pstack=%d (free region ends at offset %d, narena=%s)" %
+                 (r["nviol"], " (the step then died with signal %d)" % r["sig"] if r["cls"] == "crash" else "", "arena" if k == 1 else "stack", b, a, off, pa0, ps0,
+                  (r.get("narena") or r["mem"]) - ps0, r.get("narena", r["mem"])))
+        elif r["cls"] == "crash":
             if r["last"] == (24, 4) and r["addr"] < 4096:
                 v = ("pushPairArena", "null_check_on_wrong_pointer", "mjWARN_* or a catchable mju_error; a failed arena allocation is never dereferenced",
                      "signal %d at address %d right after a failed mj_arenaAllocByte(d, 24, 4) (sizeof(mjcPair)) inside mj_step" % (r["sig"], r["addr"]))
@@ -334,56 +367,83 @@ def sweep_oracle(ctx, args, runs, ref, reported):
                           signature={"site": v[0], "class": v[1]})
 
 
+def sweep_one(ctx, swp, sc, post, quick, reported, kinds):
+    """sweep the memory size of one scene from 0 to the needed size: coarse grid, then adaptive refinement down to
+    single bytes inside every interval in which the outcome changes (memory sizes that are not multiples of 8 included).
+    post: the model is compiled with ample memory and m->narena is set afterwards (reaches arenas too small to compile)."""
+    args = list(sc) + ["2"] + (["1"] if post else [])
+    ref = sweep_scene(ctx, swp, args, [-1])
+    if not ref:
+        return None
+    ref = ref[0]
+    hi = 256
+    while hi < (1 << 24):
+        top = sweep_scene(ctx, swp, args, [hi])
+        if not top:
+            return None
+        t = top[0]
+        if t["cls"] == "ok" and (t["ncon"], t["nefc"]) == (ref["ncon"], ref["nefc"]):
+            break
+        hi *= 2
+    if hi <= (2048 if quick else 8192) and post:
+        sizes = list(range(0, hi + 1))          # small enough: every byte
+    else:
+        stride = max(8, hi // (40 if quick else 300))
+        sizes = sorted(set(range(0, hi + stride, stride)) | {hi})
+    runs = sweep_scene(ctx, swp, args, sizes)
+    if not runs:
+        return None
+    key = lambda r: (r["cls"], r.get("ncon"), r.get("nefc"), r.get("wcon", 0) > 0, r.get("wcnstr", 0) > 0)
+    allr = {r["mem"]: r for r in runs}
+    for rnd in range(5 if quick else 7):
+        mems = sorted(allr)
+        more = set()
+        for a, b in zip(mems, mems[1:]):
+            if b - a > 1 and key(allr[a]) != key(allr[b]):
+                if b - a <= 16:
+                    more |= set(range(a + 1, b))
+                else:
+                    more |= {a + (b - a) * k // 8 for k in range(1, 8)}
+        more -= set(allr)
+        if not more:
+            break
+        if quick and len(more) > 160:
+            more = set(ctx.rng.sample(sorted(more), 160))
+        rr = sweep_scene(ctx, swp, args, sorted(more))
+        if rr is None:
+            return None
+        for r in rr:
+            allr[r["mem"]] = r
+    allr = [allr[m] for m in sorted(allr)]
+    sweep_oracle(ctx, args, allr, ref, reported)
+    nfail = 0
+    for r in allr:
+        kinds[r["cls"]] = kinds.get(r["cls"], 0) + 1
+        if r["cls"] in ("step_error", "warned", "crash") or r.get("nfailed"):
+            nfail += 1
+    failed_sizes = sorted({(r["lastb"], r["lasta"]) if "lastb" in r else tuple(r["last"]) for r in allr if r.get("nfailed", 0) > 0})
+    odd = sum(1 for r in allr if r["mem"] % 8)
+    summ = {"scene": sc, "narena_set_after_compile": bool(post), "needed_memory_about": hi, "runs": len(allr), "memory_sizes_not_multiple_of_8": odd,
+            "reference": {k: ref[k] for k in ("ncon", "nefc", "nisland", "narena")}, "distinct_failed_requests(bytes,align)": failed_sizes[:30]}
+    return len(allr) + 2, nfail, summ
+
+
 def sweep_part(ctx, swp, quick):
     total = 0
     nfail = 0
     kinds = {}
     reported = set()
     summary = []
-    for sc in (SWEEP_SCENES[:2] if quick else SWEEP_SCENES):
-        args = list(sc) + ["2"]
-        ref = sweep_scene(ctx, swp, args, [-1])
-        if not ref:
+    plan = [(SWEEP_SCENES[0], 0), (SWEEP_SCENES[1], 0), (("0", "3", "0", "0", "10"), 1)]
+    if not quick:
+        plan += [(sc, 0) for sc in SWEEP_SCENES[2:]] + [(SWEEP_SCENES[0], 1), (("0", "5", "0", "0", "20"), 1), (("2", "3", "1", "0", "10"), 1)]
+    for sc, post in plan:
+        res = sweep_one(ctx, swp, sc, post, quick, reported, kinds)
+        if res is None:
             return total, nfail, kinds
-        ref = ref[0]
-        # coarse sweep up to a size where the outcome equals the reference
-        hi = 4096
-        while hi < (1 << 24):
-            top = sweep_scene(ctx, swp, args, [hi])
-            if not top:
-                return total, nfail, kinds
-            t = top[0]
-            if t["cls"] == "ok" and (t["ncon"], t["nefc"]) == (ref["ncon"], ref["nefc"]):
-                break
-            hi *= 2
-        stride = max(8, hi // (50 if quick else 400) // 8 * 8)
-        sizes = list(range(0, hi + stride, stride))
-        runs = sweep_scene(ctx, swp, args, sizes)
-        if not runs:
-            return total, nfail, kinds
-        # refine: stride 8 inside every interval where the outcome class / counts change
-        key = lambda r: (r["cls"], r.get("ncon"), r.get("nefc"), r.get("wcon", 0) > 0, r.get("wcnstr", 0) > 0)
-        fine = []
-        for a, b in zip(runs, runs[1:]):
-            if key(a) != key(b):
-                lo, hi2 = a["mem"], b["mem"]
-                step = 8 if (hi2 - lo) <= (400 if quick else 8000) else max(8, (hi2 - lo) // (40 if quick else 1200) // 8 * 8)
-                fine += list(range(lo + step, hi2, step))
-        if quick and len(fine) > 70:
-            fine = sorted(ctx.rng.sample(fine, 70))
-        runs2 = sweep_scene(ctx, swp, args, fine) if fine else []
-        if runs2 is None:
-            return total, nfail, kinds
-        allr = runs + runs2
-        sweep_oracle(ctx, args, allr, ref, reported)
-        total += len(allr) + 2
-        for r in allr:
-            kinds[r["cls"]] = kinds.get(r["cls"], 0) + 1
-            if r["cls"] in ("step_error", "warned", "crash") or r.get("nfailed"):
-                nfail += 1
-        failed_sizes = sorted({(r["lastb"], r["lasta"]) if "lastb" in r else tuple(r["last"]) for r in allr if r.get("nfailed", 0) > 0})
-        summary.append({"scene": sc, "needed_memory_about": hi, "reference": {k: ref[k] for k in ("ncon", "nefc", "nisland", "narena")},
-                        "distinct_failed_requests(bytes,align)": failed_sizes[:30]})
+        total += res[0]
+        nfail += res[1]
+        summary.append(res[2])
     # corpus: the memory size at which the island arrays do not fit (stale efc_address before /repo 62d89235a)
     args = ["12", "2", "0", "1", "1", "2"]
     runs = sweep_scene(ctx, swp, args, [251616] + ([] if quick else list(range(251000, 252400, 200))))
